@@ -1,5 +1,6 @@
 import Proofs.FilterCtlLive
 import Proofs.FilterCtlFifo
+import Proofs.FilterCtlReserve
 import Properties.C17
 /-!
 # C12 — Filter output does not depend on thread count, batch size or scheduling
@@ -79,6 +80,17 @@ thread, so no schedule runs forever. -/
 theorem ctl_terminates (cfg : Cfg α) (s s' : State α) (t : Tid) (hst : step cfg s t = some s') :
     measure cfg s' < measure cfg s :=
   measure_decreases cfg t hst
+
+/-- **`InputBuffer` never reallocates** (`batch_never_exceeds_reserve`): in every reachable state in
+which the reader is about to run `AddNGram`, the current batch holds fewer than `batch_size` lines —
+so line number `input.length` fits in the `Reserve(batch_size)` made by `Controller`, `lines_` keeps
+its storage, and the `StringPiece`s into the (possibly small-buffer) strings stay valid.  Holds for
+every variant of the controller (the reservation in thread.hh is what must be ≥ `batch_size`;
+seeded/C12-6 lowers it and is caught by the large-batch class of the check). -/
+theorem batch_never_exceeds_reserve (cfg : Cfg α) (hb : 1 ≤ cfg.batchSize) (prog : List (ROp α)) (s : State α)
+    (hr : Reach cfg prog s) (hrun : s.rpc = .run) (top : Batch α) (lr : List (Batch α)) (hl : s.localRead = top :: lr) :
+    top.input.length < cfg.batchSize :=
+  curBelow_reach cfg hb prog hr hrun top lr hl
 
 /-! ### the FIFO assumption
 
